@@ -203,7 +203,17 @@ class PairWalker(object):
         self.overflow = False
 
     def add(self, alts, evs):
-        if not evs: return alts
+        pend = getattr(self, '_pending_alts', [])
+        self._pending_alts = []
+        alts = self._add(alts, evs)
+        for choices in pend:
+            nxt = set()
+            for ch in choices: nxt |= self._add(alts, ch)
+            alts = nxt
+        return alts
+
+    def _add(self, alts, evs):
+        if not evs: return set(alts)
         out = set()
         for a in alts:
             s = set(a)
@@ -221,10 +231,15 @@ class PairWalker(object):
         return out
 
     def stmt_events(self, node):
+        """events of a simple statement: a list of facts, plus (under key '__alts__') the alternative fact
+        lists contributed by unbalanced callees, one per path of the callee"""
         evs = list(self.pe.events(node))
+        self._pending_alts = []
         for c in [node] + list(walk_no_nested(node)):
             if isinstance(c, ast.Call):
-                evs += self.callee_facts(c)
+                r = self.callee_facts(c)
+                if r and isinstance(r[0], list): self._pending_alts.append(r)
+                else: evs += r
         return evs
 
     def walk(self, stmts, alts):
@@ -336,6 +351,7 @@ class PairAnalysis(object):
         self.prog = prog
         self.cache = {}
         self.facts = {}
+        self.alts = {}
         self.callers = {}      # callee qual -> set of (caller FuncInfo, receiver text)
 
     def _retarget(self, key, r):
@@ -362,15 +378,17 @@ class PairAnalysis(object):
             if m is None or m.node is fi.node: return []
             self.callers.setdefault(m.qual, set()).add((fi.qual, r))
             res, touched = self.analyse(m, True, _stack + (fi.qual,))
-            facts = []
-            for key, probs in res.items():
-                if key == '__overflow__' or not probs: continue
-                k2 = self._retarget(key, r)
-                if k2 is None: continue
-                for fact in self.facts.get(m.qual, {}).get(key, []):
-                    if fact.startswith('b'): facts.append((None, fact))
-                    else: facts.append((k2, fact))
-            return facts
+            if not any(probs for key, probs in res.items() if key != '__overflow__'): return []
+            choices = []
+            for alt in self.alts.get(m.qual, []):
+                facts = []
+                for x in alt:
+                    if x[0] is None: facts.append(x)
+                    else:
+                        k2 = self._retarget(x[0], r)
+                        if k2 is not None: facts.append((k2,) + tuple(x[1:]))
+                if facts not in choices: choices.append(facts)
+            return choices[:16]
         w = PairWalker(pe, callee_facts)
         exits = w.run(fi.node)
         keys = set()
@@ -392,7 +410,9 @@ class PairAnalysis(object):
             res[key] = probs
         if w.overflow: res['__overflow__'] = True
         self.cache[ck] = (res, keys)
-        if inline: self.facts[fi.qual] = dict((k, sorted(v)) for k, v in facts_by_key.items())
+        if inline:
+            self.facts[fi.qual] = dict((k, sorted(v)) for k, v in facts_by_key.items())
+            self.alts[fi.qual] = sorted(set(a for _, alts in exits for a in alts), key=lambda a: sorted(map(repr, a)))
         return res, keys
 
     def verdicts(self, funcs):
